@@ -30,7 +30,7 @@ def main():
         env = 'PYTHONPATH=%s PYTHONDONTWRITEBYTECODE=1' % WT
         r0 = sh('cd %s && %s /venv/bin/python %s/demo.py' % (WT, env, seed))
         meta['demo_on_clean_tree_exit'] = r0.returncode
-        ap = sh('git -C %s apply %s/patch.diff' % (WT, seed))
+        ap = sh('git -C %s apply %s/patch.diff || git -C %s apply --3way %s/patch.diff' % (WT, seed, WT, seed))
         if ap.returncode:
             meta['apply_error'] = ap.stderr[-500:]
             print('PATCH DOES NOT APPLY', ap.stderr[-300:])
